@@ -164,8 +164,28 @@ LYS 1
 [ bonds ]
 BB SC1 1 0.33 5000
 SC1 SC2 1 0.28 5000
+[ moleculetype ]
+GLYC 1
+[ atoms ]
+1 P3 1 GLYC BB 1 0.0 72.0
+2 C1 1 GLYC SC1 2 0.0 36.0
+[ bonds ]
+BB SC1 1 0.29 2000
+[ moleculetype ]
+LYSN 1
+[ atoms ]
+1 P2 1 LYSN BB 1 0.0 72.0
+2 C3 1 LYSN SC1 2 0.0 36.0
+3 Nd 1 LYSN SC2 3 0.0 36.0
+[ bonds ]
+BB SC1 1 0.33 5000
+SC1 SC2 1 0.28 5000
+[ moleculetype ]
+PEO 1
+[ atoms ]
+1 N0 1 PEO BB 1 0.0 45.0
 [ link ]
-resname "GLY|ALA|LYS"
+resname "GLY|ALA|LYS|GLYC|LYSN|PEO"
 [ bonds ]
 BB +BB 1 0.35 1250
 [ modification ]
@@ -182,6 +202,15 @@ C-ter
 [ atoms ]
 BB {"replace": {"atype": "Qa", "charge": -1}}
 """
+# the residue names polyply regards as protein residues (apply_modifications.protein_resnames); a
+# modification is applicable to those only -- PEO, and GLYC / LYSN which merely start like one, stay as they are
+def protein_names():
+    """the exact names in the table of the current source (the table defines what is applicable)"""
+    from polyply.src import apply_modifications
+    return apply_modifications.protein_resnames.split('|')
+
+
+MOD_RESNAMES = ['GLY', 'ALA', 'LYS', 'GLY', 'ALA', 'LYS', 'GLYC', 'LYSN', 'PEO']
 MODS = {'N-ter': {'BB': {'atype': 'Qd', 'charge': 1.0}, 'SC1': {'atype': 'X1'}},
         'MID': {'SC2': {'atype': 'X2', 'charge': 0.0}},
         'C-ter': {'BB': {'atype': 'Qa', 'charge': -1.0}}}
@@ -193,7 +222,7 @@ def mod_cases(ctx):
     rng = ctx.rng
     for _ in range(ctx.n(40, 400)):
         n = rng.randint(2, 6)
-        g = {'nres': n, 'shape': 'path', 'resnames': [rng.choice(['GLY', 'ALA', 'LYS']) for _ in range(n)], 'edges': [(i, i + 1) for i in range(n - 1)],
+        g = {'nres': n, 'shape': 'path', 'resnames': [rng.choice(MOD_RESNAMES) for _ in range(n)], 'edges': [(i, i + 1) for i in range(n - 1)],
              'r0': rng.choice([1, 1, 5]), 'keys': list(range(n)), 'order': list(range(n)), 'edge_order': list(range(n - 1)), 'flip': [False] * (n - 1)}
         if rng.random() < 0.7:
             g = ffgen.permute_graph(rng, g)
@@ -204,7 +233,10 @@ def mod_cases(ctx):
             mod = rng.choice(sorted(MODS))
             resid = g['r0'] + t
             mods.append((f"{g['resnames'][t]}{resid}", mod))
-            per_res[resid] = mod
+            if g['resnames'][t] in protein_names():
+                per_res[resid] = mod
+            else:
+                ctx.feature('mod_on_non_protein_residue')
         plain = ffgen.run_pipeline(MOD_FF, g)
         out = ffgen.run_pipeline(MOD_FF, g, mods=mods)
         ctx.case(('mod', json.dumps(g, sort_keys=True), json.dumps(mods)), nontrivial=len(mods) >= 2,
